@@ -22,6 +22,7 @@ require (
 	github.com/c0va23/go-proxyprotocol v0.9.1 // indirect
 	github.com/cespare/xxhash/v2 v2.3.0 // indirect
 	github.com/emersion/go-imap v1.2.2-0.20220928192137-6fac715be9cf // indirect
+	github.com/emersion/go-milter v0.4.1 // indirect
 	github.com/google/uuid v1.6.0 // indirect
 	github.com/lib/pq v1.10.9 // indirect
 	github.com/mattn/go-sqlite3 v1.14.24 // indirect
